@@ -20,3 +20,9 @@ open Neutrino.Store
 #print axioms Neutrino.Store.C07_trans_FetchFilterHeaderAncestors
 #print axioms Neutrino.Store.C07_trans_readHeadersFromFile
 #print axioms Neutrino.Store.C07_trans_HeaderType_Size
+#print axioms C07_single_tx_append_unchanged
+#print axioms C07_split_success_same
+#print axioms C07_split_append_counterexample
+#print axioms C07_bulk_source_shape
+#print axioms C07_short_file_read_fails
+#print axioms C07_filter_ancestors
